@@ -7,8 +7,11 @@ classes of `handleResultError` and the back-off decision, as a deterministic fun
 * the batch: a list of call ids (a repeated id = the same `hrpc.Call` passed twice), with a table
   and a batchable flag per id (`Info`);
 * one `Round` per pass through the retry loop:
-  - `locate`   what `getRegionAndClientForRPC` returns for a call in this round (C01 is behind
-               it): a region client id or an error (context error, client closed, …);
+  - `locate`   what `getRegionAndClientForRPC` (under the call's merged context) gives
+               `findClients` for a call in this round (C01 is behind it): a region client id or an
+               error (context error, client closed, …); `.error (.ownCtx c)` for call `c` = the wait
+               for `c`'s region ended because `c`'s own context is done while the batch context is
+               alive: only that call is failed, the rest of the batch goes on;
   - `ans`      what is on the call's result channel when `waitForCompletion` looks at it;
   - `order`    the order in which Go iterates the `rpcByClient` map (arbitrary: quantified);
   - `cancel`   where the batch context is observed to be done in this round.
@@ -148,7 +151,17 @@ def groups (rd : Round) (batch : List Nat) : List (Nat × List Nat) :=
   (arrange rd.order (dedup (batch.map (clientOf rd)))).map
     fun k => (k, batch.filter (fun c => clientOf rd c == k))
 
-/-- The loop after a failed `findClients`: errors go to the call's own slot. -/
+/-- Region location gave up on `c` only because `c`'s own context is done (the batch context is
+alive): `findClients` reports `rpc.Context().Err()` for it and keeps `ok == true`. -/
+def ownGone (rd : Round) (c : Nat) : Bool :=
+  match rd.locate c with
+  | .error (.ownCtx d) => d == c
+  | _ => false
+
+/-- The calls `findClients` puts into `rpcByClient` when it returns `ok == true`. -/
+def liveCalls (rd : Round) (batch : List Nat) : List Nat := batch.filter (fun c => !ownGone rd c)
+
+/-- The loop after `findClients`: every error it found goes to the call's own slot. -/
 def locateErrors (b0 : List Nat) (rd : Round) : List Nat → List Slot → List Slot
   | [], res => res
   | c :: cs, res =>
@@ -256,12 +269,25 @@ def ctxDoneAfterWait : Cancel → Bool
   | .after => true
   | _ => false
 
+/-- `SendBatch`'s variables after `findClients` returned `ok == true` and its errors were copied:
+the calls whose own context ended the wait for their region carry that error; any of them clears
+`allOK` and sets `unretryableErrorSeen`. -/
+def afterLocate (b0 : List Nat) (rd : Round) (batch : List Nat) (st : St) : St :=
+  { st with res := locateErrors b0 rd batch st.res,
+            allOK := st.allOK && !batch.any (ownGone rd),
+            unretry := st.unretry || batch.any (ownGone rd) }
+
 def loop (b0 : List Nat) : List Round → Nat → List Nat → St → Outcome Result
   | [], _, _, _ => .fault "no further answers: SendBatch blocks forever"
-  | rd :: rest, r, batch, st =>
-    if batch.any (fun c => !locOk rd c) then
-      .ok ⟨locateErrors b0 rd batch st.res, false, st.events, false⟩
+  | rd :: rest, r, batch0, st0 =>
+    -- `findClients` returns `ok == false`: some call could not be located for another reason than
+    -- its own context (every error found, own-context ones included, is copied to `res`)
+    if batch0.any (fun c => !locOk rd c && !ownGone rd c) then
+      .ok ⟨locateErrors b0 rd batch0 st0.res, false, st0.events, false⟩
     else
+      -- the calls whose own context is done are failed alone; the round goes on with the others
+      let st := afterLocate b0 rd batch0 st0
+      let batch := liveCalls rd batch0
       let gs := groups rd batch
       let ev := st.events ++ gs.map (fun g => Event.queue r g.1 g.2)
       match waitAll b0 rd.ans (cancelPos rd.cancel) gs 0 ⟨st.res, st.allOK, [], false, st.unretry, false⟩ with
